@@ -1,4 +1,139 @@
 package main
 
+import (
+	"go/ast"
+	"go/token"
+	"strconv"
+	"strings"
+)
+
+// c09CallArgs: source text of the arguments [from,to) (joined by ", ") of every call of callee
+// inside node, source order
+func c09CallArgs(rel string, node ast.Node, callee string, from, to int) []string {
+	var res []string
+	ast.Inspect(node, func(n ast.Node) bool {
+		if c, ok := n.(*ast.CallExpr); ok && c08Src(rel, c.Fun) == callee {
+			var parts []string
+			for i, a := range c.Args {
+				if i >= from && i < to {
+					parts = append(parts, c08Src(rel, a))
+				}
+			}
+			res = append(res, strings.Join(parts, ", "))
+		}
+		return true
+	})
+	return res
+}
+
+// c09RegexVar: the raw-string argument of `var name = regexp.MustCompile(`...`)`
+func c09RegexVar(rel, name string) string {
+	for _, d := range load(rel).f.Decls {
+		gd, ok := d.(*ast.GenDecl)
+		if !ok {
+			continue
+		}
+		for _, sp := range gd.Specs {
+			vs, ok := sp.(*ast.ValueSpec)
+			if !ok || len(vs.Names) != 1 || vs.Names[0].Name != name || len(vs.Values) != 1 {
+				continue
+			}
+			if c, ok := vs.Values[0].(*ast.CallExpr); ok && len(c.Args) == 1 {
+				if b, ok := c.Args[0].(*ast.BasicLit); ok && b.Kind == token.STRING {
+					s, err := strconv.Unquote(b.Value)
+					if err != nil {
+						fail("%s: %v", name, err)
+					}
+					return s
+				}
+			}
+		}
+	}
+	fail("%s: var %s = regexp.MustCompile(<literal>) not found", rel, name)
+	return ""
+}
+
 func factsC09() {
+	// ---- C09
+	cache := "pkg/controller/services/cache.go"
+	var perm []string
+	for _, g := range []string{"GetService", "GetTLSSecretPath", "GetCASecretPath", "GetDHSecretPath", "GetPasswdSecretContent"} {
+		perm = append(perm, g+": "+one(c09CallArgs(cache, methodDecl(cache, "c", g), "buildResourceName", 0, 4), "buildResourceName in "+g))
+	}
+	addStrList("c09GetterPermission", perm, "services/cache.go: arguments each getter passes to buildResourceName")
+	addStrList("c09BuildResourceName", c08Skeleton(cache, funcDecl(cache, "buildResourceName")), "services/cache.go buildResourceName: decision skeleton")
+	addStr("c09ContentProtocolRegex", strconv.Quote(c09RegexVar(cache, "contentProtocolRegex")), "services/cache.go: contentProtocolRegex")
+	addStrList("c09ContentProtocol", c08Skeleton(cache, funcDecl(cache, "getContentProtocol")), "services/cache.go getContentProtocol: decision skeleton")
+
+	// global.go buildGlobalDynamic + updater.go validateAllowDeny
+	glob := "pkg/converters/ingress/annotations/global.go"
+	upd := "pkg/converters/ingress/annotations/updater.go"
+	addStrList("c09BuildGlobalDynamic", c08Skeleton(glob, methodDecl(glob, "updater", "buildGlobalDynamic")), "annotations/global.go buildGlobalDynamic: assignments")
+	addStrList("c09ValidateAllowDeny", c08Skeleton(upd, methodDecl(upd, "updater", "validateAllowDeny")), "annotations/updater.go validateAllowDeny: skeleton")
+
+	// the reference sites: (defaultNamespace, name) handed to the cache
+	back := "pkg/converters/ingress/annotations/backend.go"
+	host := "pkg/converters/ingress/annotations/host.go"
+	ing := "pkg/converters/ingress/ingress.go"
+	gw := "pkg/converters/gateway/gateway.go"
+	var sites []string
+	sites = append(sites, "tls: "+one(c09CallArgs(ing, methodDecl(ing, "converter", "addTLS"), "c.cache.GetTLSSecretPath", 0, 2), "addTLS"))
+	sites = append(sites, "gateway-cert: "+one(c09CallArgs(gw, methodDecl(gw, "converter", "readCertRef"), "c.cache.GetTLSSecretPath", 0, 2), "readCertRef"))
+	sites = append(sites, "auth-tls-secret: "+one(c09CallArgs(host, methodDecl(host, "updater", "setAuthTLSConfig"), "c.cache.GetCASecretPath", 0, 2), "setAuthTLSConfig"))
+	prot := methodDecl(back, "updater", "buildBackendProtocol")
+	sites = append(sites, "secure-crt-secret: "+one(c09CallArgs(back, prot, "c.cache.GetTLSSecretPath", 0, 2), "secure-crt-secret"))
+	sites = append(sites, "secure-verify-ca-secret: "+one(c09CallArgs(back, prot, "c.cache.GetCASecretPath", 0, 2), "secure-verify-ca-secret"))
+	sites = append(sites, "auth-secret: "+one(c09CallArgs(back, methodDecl(back, "updater", "buildBackendAuthHTTP"), "c.cache.GetPasswdSecretContent", 0, 2), "auth-secret"))
+	sites = append(sites, "auth-url: "+one(c09CallArgs(back, methodDecl(back, "updater", "setAuthExternal"), "c.haproxy.Backends().FindBackend", 0, 3), "auth-url"))
+	addStrList("c09Sites", sites, "arguments (defaultNamespace, name) each reference site hands to the cache / FindBackend")
+	// where namespace, name of the secure-* sites come from
+	var nn []string
+	ast.Inspect(prot, func(n ast.Node) bool {
+		if a, ok := n.(*ast.AssignStmt); ok && len(a.Lhs) == 3 && len(a.Rhs) == 1 && a.Tok == token.DEFINE {
+			nn = append(nn, c08Src(back, a))
+		}
+		return true
+	})
+	addStrList("c09SecureNamespacedName", nn, "backend.go buildBackendProtocol: where (namespace, name) of the secure-* keys come from")
+	// auth-secret: Find before the cache call?
+	ah := methodDecl(back, "updater", "buildBackendAuthHTTP")
+	findPos, getPos := token.NoPos, token.NoPos
+	ast.Inspect(ah, func(n ast.Node) bool {
+		if c, ok := n.(*ast.CallExpr); ok {
+			switch c08Src(back, c.Fun) {
+			case "c.haproxy.Userlists().Find":
+				findPos = c.Pos()
+			case "c.cache.GetPasswdSecretContent":
+				getPos = c.Pos()
+			}
+		}
+		return true
+	})
+	addBool("c09UserlistFindBeforeCache", findPos != token.NoPos && getPos != token.NoPos && findPos < getPos,
+		"backend.go buildBackendAuthHTTP: Userlists().Find is consulted before GetPasswdSecretContent")
+
+	// converters.go Sync: the gateway converter runs before the ingress converter
+	cv := "pkg/converters/converters.go"
+	sync := methodDecl(cv, "converters", "Sync")
+	var order []string
+	ast.Inspect(sync, func(n ast.Node) bool {
+		if c, ok := n.(*ast.CallExpr); ok {
+			switch calleeName(c.Fun) {
+			case "gatewayConverter.Sync", "ingressConverter.Sync":
+				order = append(order, calleeName(c.Fun))
+			}
+		}
+		return true
+	})
+	addStrList("c09SyncOrder", order, "converters.go Sync: order of the converter Sync calls")
+	// ingress.go: UpdateGlobalConfig is called by syncFull only
+	var callers []string
+	for _, d := range load(ing).f.Decls {
+		if fd, ok := d.(*ast.FuncDecl); ok && fd.Body != nil {
+			if len(c09CallArgs(ing, fd, "c.updater.UpdateGlobalConfig", 0, 0)) > 0 {
+				callers = append(callers, fd.Name.Name)
+			}
+		}
+	}
+	addStrList("c09UpdateGlobalConfigCallers", callers, "ingress.go: functions that call updater.UpdateGlobalConfig")
 }
